@@ -14,7 +14,7 @@ from pedal.source.sections import separate_into_sections, next_section, stop_sec
 from pedal.source.source import verify
 from pedal.resolvers import simple
 
-_parts = {"value": None}
+_parts = {"value": None, "used": 0}
 
 
 class _ReStub:
@@ -25,6 +25,7 @@ class _ReStub:
         parts = _parts["value"]
         if parts is None:
             return real_re.split(pattern, string, *a, **k)
+        _parts["used"] += 1
         return list(parts)
 
 
@@ -46,7 +47,11 @@ def _walk(parts, independent, steps, err_local, finish_resolve):
     _parts["value"] = parts
     main_before = len(MAIN_REPORT.feedback) + len(MAIN_REPORT.ignored_feedback)
     try:
+        used_before = _parts["used"]
         separate_into_sections(independent=independent, report=r)
+        if _parts["used"] == used_before:
+            flag("stub_dead")          # the split no longer goes through the stubbed `re` name
+            return True
         if r.submission.main_code != parts[0]:
             return False
         offset = 0
@@ -254,3 +259,16 @@ def _tools_concrete(prologue, filler, target, second, independent):
                and ("Line %d of file" % want) in fbs[0].message)
     stop_sections(report=r)
     return res and r.submission.main_code == full
+
+
+def stub_canary():
+    """True iff sections are still split through the stubbed `re` name and verify() through the stubbed `ast` name."""
+    r = Report()
+    contextualize_report("ab", report=r)
+    _parts["value"] = ["a", "", "b"]
+    used = _parts["used"]
+    try:
+        separate_into_sections(report=r)
+        return _parts["used"] == used + 1 and P.stub_canary()
+    finally:
+        _parts["value"] = None
